@@ -275,6 +275,16 @@ def rdDefs : List Sexp → Option Defs
     | _, _ => none
   | _ => none
 
+/-- may the field be absent from a document (optional or collection, through aliases)? -/
+def omittable (defs : Defs) (t : CTy) : Bool :=
+  match shape defs 60 t with
+  | .required => false
+  | _ => true
+
+def attrText (defs : Defs) (serializeEmpty : Bool) (f : Bytes × CTy) : String :=
+  Hex.hex f.1 ++ ":" ++ (if omittable defs f.2 then "d" else "-") ++ ":" ++
+    (if omittable defs f.2 && !serializeEmpty then "s" else "-")
+
 def handle : List String → String
   | ["canon", defs, cfg, ty, doc] =>
     match parse defs, (parse ty).bind (rdTy 50), (parse doc).bind (WrapIO.readDoc 200) with
@@ -286,6 +296,19 @@ def handle : List String → String
             | some d' => "ok " ++ AnyIO.showDocS d'
             | none => "err")
         | _, _ => "bad-op")
+    | _, _, _ => "bad-op"
+  -- the serde attributes the generator must put on each field of object `n`:
+  -- `<hex name>:<d if defaulted>:<s if skipped when empty>` per field
+  | ["attrs", defs, cfg, n] =>
+    match parse defs, n.toNat?, cfg.toList with
+    | some (.list (.atom "defs" :: ds)), some n, [_, m, _] =>
+      (match rdDefs ds with
+        | some defs =>
+          (match defs[n]? with
+            | some (.object fields) =>
+              ",".intercalate (fields.map (fun f => attrText defs (m == '1') f))
+            | _ => "not-an-object")
+        | none => "bad-op")
     | _, _, _ => "bad-op"
   | _ => "bad-op"
 
